@@ -9,11 +9,11 @@ import enginelib as E
 import pipeline_oracle
 import vlib
 
-COQ_TARGETS = ["Model/Engine.vo", "Model/Observe.vo", "Proofs/EngineProofs.vo"]
+COQ_TARGETS = ["Model/Engine.vo", "Model/EngineF.vo", "Model/Observe.vo", "Proofs/EngineProofs.vo", "Proofs/EngineFProofs.vo"]
 ALL_ACTIVATIONS = ("General", "General", "General", "First", "Last", "Highest", "Lowest", "Proportional", "Threshold")
-IMPORTS = "From VF Require Import GenNorm GenHedge GenTerm Core Engine Observe."
+IMPORTS = "From VF Require Import GenNorm GenHedge GenTerm Core Engine EngineF Observe."
 CHECKER = ("fun c => let '(e, expected, tbl) := c in "
-           "result_obs_eqb (@process float (NumF true tbl) (fun _ _ _ _ => Err EInternal) e) expected")
+           "result_obs_eqb (@process_f float (NumF true tbl) (fun _ _ _ => None) e) expected")
 CASE_TYPE = "engine float * (obs + nat) * oracle"
 
 
@@ -57,7 +57,7 @@ def run_cases(ctx, verdict, fl, n_engines, n_rows, profiles, activations, weight
     distinct = set()
     for k in range(n_engines):
         profile = ctx.rng.choice(profiles)
-        desc = E.gen_engine(ctx.rng, profile=profile, activations=activations, weighted=weighted)
+        desc = E.gen_engine(ctx.rng, profile=profile, activations=activations, weighted=weighted, refs=True)
         engine = E.build_engine(fl, desc)
         stats["engines"] += 1
         stats["by_profile"][profile] = stats["by_profile"].get(profile, 0) + 1
@@ -151,7 +151,7 @@ def run(ctx, build, verdict, ev):
     c["samples"] = index[:: max(1, len(index) // 5)][:5]
     ev["assumptions"] += ["rule trees in the model are the trees the implementation loaded (parsing is C06's subject)",
                           "Python value kinds (float / numpy.float64 / 0-d array) are not modelled",
-                          "Function and Linear terms are not generated here (C10/C17 cover their values)"]
+                          "Linear terms and Function terms over + - * / are generated in weighted outputs and evaluated by the formula model; transcendental formula functions are C17's subject"]
 
 
 def replay(ctx, data):
